@@ -1129,6 +1129,28 @@ func c07PartB(c *runCtx, e *emitter, r *rng) {
 			}
 		}
 	}
+	// B1c: order fields DEFINED IN TERMS OF other select fields (`u + '-' + key as uk`): the type of such a
+	// field (text vs number decides how the column is compared) is known only once the names inside it
+	// are resolved, whatever the moment the ORDER BY clause is parsed
+	for _, n := range []int{5, 9, 40} {
+		kvs := c07Store(r, n, 8)
+		derived := []c07Item{
+			{sql: "upper(value)", alias: "u", name: "u", tp: kvql.TSTR},
+			{sql: "u + '-' + key", alias: "uk", name: "uk", tp: kvql.TSTR},
+			{sql: "int(value)", alias: "n", name: "n", tp: kvql.TNUMBER},
+			{sql: "n * 2 + strlen(u)", alias: "m2", name: "m2", tp: kvql.TNUMBER},
+			{sql: "uk + u", alias: "uku", name: "uku", tp: kvql.TSTR},
+			{sql: "key", name: "KEY", tp: kvql.TSTR},
+		}
+		for _, B := range []int{1, 3, 32} {
+			for _, d := range []int{0, 1, 2} {
+				c07RunStmt(e, 1, derived, false, "key ^= ''", "", []int{1}, []int{d}, false, kvs, B)
+				c07RunStmt(e, 1, derived, false, "key ^= ''", "", []int{3, 1}, []int{d, 2 - d}, false, kvs, B)
+				c07RunStmt(e, 1, derived, false, "key ^= ''", "", []int{4, 5}, []int{d, 1}, false, kvs, B)
+				c07RunStmt(e, 1, derived, false, "key ^= ''", "", []int{0, 3, 5}, []int{2 - d, d, 0}, false, kvs, B)
+			}
+		}
+	}
 	// B2: plain selects
 	for it := 0; it < nPlain; it++ {
 		n := pick(r, sizes)
